@@ -24,6 +24,19 @@ def handle (fn : String) : Handler := fun a impl =>
       -- the property: an error, or exactly the complete encoding with its exact length
       let ok := impl.startsWith "Err:" || impl == s!"Ok:{bytes.length}:{fHex bytes}"
       some (model, relSpec impl ok "neither an error nor the complete encoding")
+  | "c15wi", [ty, ctx, terms, hex, limits, failAt, intr] =>
+    match dynOf ty ctx "-" terms with
+    | none => none
+    | some d =>
+      let bytes := pHex hex
+      let sink : Sink := ⟨pList limits, if failAt == "-" then none else some (pNat failAt), 0, []⟩
+      match d.rawChunks bytes with
+      | .ok (chunks, _, _) =>
+        -- model: the serializer over the interrupting stream; spec: the same stream without the interruptions (`serializeI_erase`)
+        let (r, w) := serializeI genWMode chunks ⟨sink, pList intr, 0⟩
+        let model := match r with | .ok n => s!"Ok:{n}:{fHex w.s.out}" | .error _ => s!"Err:{fHex w.s.out}"
+        some (model, fWrite (serialize genWMode chunks sink))
+      | .error _ => some ("ERR:other", "ERR:other")
   | "c15r", [ty, ctx, terms, hex, k] =>
     match dynOf ty ctx "-" terms with
     | none => none
